@@ -1,6 +1,8 @@
 import G3D.Proofs.Volume
 import G3D.Proofs.FlatPolygon
 import G3D.Proofs.Heron
+import G3D.Proofs.MeasBody
+import G3D.Proofs.MeasMove
 /-! # C06 — length, area and volume are the exact measures  (full relative to the shoelace / surface-integral
     definitions; their identification with Lebesgue measure is classical and not formalised)
     The model keeps rational numerators: area = areaNum / (2·|n|), pyramid volume = heightNum·areaNum/(6 n·n). -/
@@ -55,4 +57,60 @@ theorem heron_is_half_cross (u v : V3) :
     let s := (a + b + c) / 2
     Real.sqrt (s * (s - a) * (s - b) * (s - c)) = (1/2) * Real.sqrt ((normSq (cross u v) : ℚ) : ℝ) :=
   heron_area_V3 u v
+
+/-! ### "whatever the order of the vertices, the order of the faces or the orientation of their normals" -/
+/-- **polygon, order of the input**: two constructor calls on the same point set (any order, repetitions, either `reverse`
+    flag; points in strictly convex position) store polygons with the same squared area `areaNum² / (4 n·n)`, the same
+    multiset of squared edge lengths (hence the same perimeter), the same centre and the same vertex set -/
+theorem polygon_measures_input_order (i1 i2 : List V3) (rev1 rev2 : Bool) (P1 P2 : Polygon)
+    (hset : ∀ p, p ∈ i1 ↔ p ∈ i2) (hx : StrictConvexPos (dedupV i1))
+    (h1 : Polygon.mk? i1 rev1 = .ok P1) (h2 : Polygon.mk? i2 rev2 = .ok P2) :
+    P1.areaSq = P2.areaSq ∧ List.Perm P1.edgeLenSqs P2.edgeLenSqs ∧ P1.center = P2.center ∧
+      (∀ p, p ∈ P1.pts ↔ p ∈ P2.pts) := Polygon.mk?_measures_input_order i1 i2 rev1 rev2 P1 P2 hset hx h1 h2
+
+/-- the squared area of a constructed polygon is |½ Σ pᵢ × pᵢ₊₁|² — a function of the vertex cycle only -/
+theorem polygon_area_sq_is_vector_area (input : List V3) (rev : Bool) (P : Polygon) (h : Polygon.mk? input rev = .ok P)
+    (hx : StrictConvexPos (dedupV input)) : P.areaSq = normSq (vecArea2 P.pts) / 4 := Polygon.mk?_areaSq input rev P h hx
+
+/-- `-P` has the same area and edge lengths -/
+theorem neg_polygon_measures (P : Polygon) (hv : P.Valid) (hc : P.CentreInside) (Q : Polygon) (h : P.neg? = .ok Q) :
+    Q.areaSq = P.areaSq ∧ List.Perm Q.edgeLenSqs P.edgeLenSqs := by
+  obtain ⟨_, _, ha, he, _⟩ := Polygon.neg?_measures P hv hc Q h
+  exact ⟨ha, he⟩
+
+/-- **polyhedron, order of the faces and orientation of their normals**: two constructions from the faces of the same Valid
+    body — any face order, any start vertex, either orientation of each face — have the same volume, the same multiset of
+    squared edge lengths, the same multiset of squared face areas and the same centre -/
+theorem polyhedron_measures_order_orientation (B0 : Polyhedron) (hV : B0.Valid)
+    (F1 F2 input1 input2 : List Polygon)
+    (hperm1 : List.Perm F1 B0.faces) (hrel1 : List.Forall₂ Reoriented F1 input1)
+    (hperm2 : List.Perm F2 B0.faces) (hrel2 : List.Forall₂ Reoriented F2 input2)
+    (hc1 : ∀ g ∈ input1, g.CentreInside) (hc2 : ∀ g ∈ input2, g.CentreInside)
+    (B1 B2 : Polyhedron) (h1 : Polyhedron.mk? input1 = .ok B1) (h2 : Polyhedron.mk? input2 = .ok B2) :
+    B1.volume = B2.volume ∧ List.Perm B1.edgeLenSqs B2.edgeLenSqs ∧
+    List.Perm (B1.faces.map Polygon.areaSq) (B2.faces.map Polygon.areaSq) ∧ B1.center = B2.center :=
+  Polyhedron.mk?_reoriented_measures_two B0 hV F1 F2 input1 input2 hperm1 hrel1 hperm2 hrel2 hc1 hc2 B1 B2 h1 h2
+
+/-- **volume = surface integral**: the pyramid sum of a constructed body is `⅙ Σ_faces (p₀ − q)·A_f` for EVERY reference
+    point q (all cone terms about the interior centre have the same sign), and it is the surface integral of the reference
+    body's faces whatever the input order / orientation -/
+theorem polyhedron_volume_is_surface_integral (B0 : Polyhedron) (hV : B0.Valid) (F input : List Polygon)
+    (hperm : List.Perm F B0.faces) (hrel : List.Forall₂ Reoriented F input)
+    (hc : ∀ g ∈ input, g.CentreInside) (B : Polyhedron) (h : Polyhedron.mk? input = .ok B) (q : V3) :
+    B.volume = vol6 (B0.faces.map (·.pts)) q / 6 ∧ B.volume = vol6 (B.faces.map (·.pts)) q / 6 ∧ 0 ≤ B.volume := by
+  obtain ⟨hBV, hBS, hvol, _⟩ := Polyhedron.mk?_reoriented_measures B0 hV F input hperm hrel hc B h
+  obtain ⟨h1, h2⟩ := Polyhedron.volume_eq_surface_integral B hBV hBS q
+  refine ⟨hvol q, h1, ?_⟩
+  rw [h1]; exact div_nonneg h2 (by norm_num)
+
+/-- any constructor call on the vertex set of a face, in any order, gives an admissible input face for the theorems above -/
+theorem face_from_any_vertex_order (f : Polygon) (hf : f.Valid) (i : List V3) (rev : Bool) (g : Polygon)
+    (hset : ∀ p, p ∈ i ↔ p ∈ f.pts) (h : Polygon.mk? i rev = .ok g) : Reoriented f g ∧ g.CentreInside :=
+  Reoriented.of_mk? f hf i rev g hset h
+
+/-- measures of a moved polyhedron: edge lengths, face areas and volume are those of the original -/
+theorem polyhedron_moved_measures (B : Polyhedron) (hV : B.Valid) (hctr : ∀ f ∈ B.faces, f.CentreInside) (v : V3) :
+    (B.moved v).edgeLenSqs = (edgesOf B.faces []).map Seg.lenSq ∧
+    (B.moved v).faces.map Polygon.areaSq = B.faces.map Polygon.areaSq ∧
+    (∀ q, (B.moved v).volume = vol6 (B.faces.map (·.pts)) q / 6) := Polyhedron.moved_measures B hV hctr v
 end G3D.Props.C06
